@@ -30,6 +30,7 @@ func findReceiveOf(n *simnode.Node, send *nom.AccountBlock) *nom.AccountBlock {
 }
 
 func runC03(r *simrt.Run) {
+	r.WatchLocks() // a lock of the node that is never released is a violation, not a hang
 	t := r.T
 	mode := nomsim.SporkMode(t.Choose(3))
 	w := nomsim.NewWorld(r, nomsim.MockGenesis(mode))
